@@ -47,6 +47,9 @@ PROVED = (
     'samples, else returns exactly the linked stations; `estimate` after _angles_to_poses: no-reference / cannot-link / '
     'crash-on-empty-sample / answer, classified exactly; reference = smallest id of the first sample with >= 2 stations; '
     'for consistent per-sample poses over any group the answer is the truth in the frame of that sample\'s Crazyflie. '
+    'EXTENSION outside the quantifier: calls built from steps that touch no shared state return, under every '
+    'interleaving, what they return alone (C09_local_steps_commute, C09_overlapping_estimates_independent; '
+    'C09_shared_scratch_refuted for a class-level scratch cell). '
     'REFUTED (theorem C09_mirror_vote_refuted over the model of _find_most_likely_positions, C09/Vote.v): the cluster '
     'vote does not isolate the true relative station position even if every sample contains it exactly.')
 NOT_PROVED = (
@@ -640,6 +643,12 @@ def _check_case(case, ctx=None):
         return _room_failure(case['room'], j, kind, case.get('jitter', 0.0)) if j else None
     if kind == 'average':
         return _check_average(case)
+    if kind == 'overlap':
+        from fakes import c09_overlap
+        j = c09_overlap.check(case)
+        if j:
+            return {'class': j[0], 'case': case, 'expected': j[1], 'observed': j[2], 'detail': j[3]}
+        return None
     if kind == 'matcher':
         got, want = _impl_match(case), _spec_match(case)
         if got != want:
@@ -724,6 +733,28 @@ def _spec_est(case):
     return [1, len(val)] + lk[1:] + [len(cfs)] + cfs
 
 
+def _overlap_cases(ctx, n_pairs):
+    """Pairs (sometimes triples) of small different rooms, mostly with the SAME station ids, and a hand-over pattern."""
+    from fakes import c09_overlap
+    R = _rooms()
+    patterns = [['lists'], ['every', 1], ['every', 3]]
+    cases = []
+    for k in range(n_pairs):
+        n_bs = ctx.rng.randint(2, 4)
+        a = R.gen_room(ctx.rng, n_bs=n_bs, n_cf=ctx.rng.randint(3, 6), mode=ctx.rng.choice(['full', 'chain']))
+        rooms = [a]
+        for _ in range(2 if k % 4 == 3 else 1):
+            same = ctx.rng.random() < 0.75
+            b = R.gen_room(ctx.rng, n_bs=n_bs if same else ctx.rng.randint(2, 4), n_cf=ctx.rng.randint(3, 6),
+                           mode=ctx.rng.choice(['full', 'chain']))
+            if same:
+                b = c09_overlap.relabel(b, sorted(int(x) for x in a['bs']))
+            rooms.append(b)
+        pat = patterns[k % 3] if k < 3 or ctx.rng.random() < 0.6 else ['seed', ctx.rng.randrange(1 << 20)]
+        cases.append({'kind': 'overlap', 'rooms': rooms, 'pattern': pat})
+    return cases
+
+
 def _corpus():
     out = []
     for p in sorted(glob.glob(os.path.join(VERIF, 'corpus', 'C09', '*.json'))):
@@ -760,6 +791,14 @@ def oracle(ctx, deep=False):
             failures.append(f)
         n += 1
         f = _check_case({'kind': 'estimate_ids', 'ss': [s for s in c['ss'] if s]})
+        if f and not any(x['class'] == f['class'] for x in failures):
+            failures.append(f)
+    # ---- EXTENSION (outside C09's quantifier): a call's result is a function of its arguments, also when calls for
+    #      different rooms overlap in time (threads in deterministic lock-step, hand-over where inputs are iterated)
+    ocases = _overlap_cases(ctx, ctx.scale(3, 20) * (2 if deep else 1))
+    for c in ocases:
+        n += 1
+        f = _check_case(c)
         if f and not any(x['class'] == f['class'] for x in failures):
             failures.append(f)
     # ---- _avarage_poses directly (pure): nearly equal poses, orientations at / near half turns, q vs -q
@@ -822,7 +861,7 @@ def oracle(ctx, deep=False):
             'distribution': {'rooms': n_rooms, 'rooms_exact_ippe': n_exact, 'modes': modes,
                              'known_class_failures': n_known, 'structured_rooms_exact_ippe': n_sx,
                              'structured_rooms': n_su, 'structured_known_class_failures': su_known,
-                             'average_cases': len(acases)}}
+                             'average_cases': len(acases), 'overlapping_call_histories': len(ocases)}}
 
 
 def replay(payload, ctx):
